@@ -56,6 +56,9 @@ fn big(arg: i64) -> Value {
         5 => json!(1e30),
         6 => json!("x"),
         7 => json!(9223372036854775807i64),
+        8 => json!(-9223372036854775808i64),
+        9 => json!(-9223372036854775807i64),
+        10 => json!(18446744073709551614u64),
         _ => json!(null),
     }
 }
@@ -77,6 +80,9 @@ fn bigstr(arg: i64) -> String {
 fn mutate_json(doc: &mut Value, part: &str, idx: usize, op: &str, arg: i64) -> bool {
     let res0 = first_id(doc, "resources");
     let set0 = first_id(doc, "annotationsets");
+    let first_ann = doc["annotations"].as_array().and_then(|a| a.first()).and_then(|x| x["@id"].as_str()).unwrap_or("nope").to_string();
+    let key0 = doc["annotationsets"].as_array().and_then(|a| a.first()).and_then(|s| s["keys"].as_array()).and_then(|k| k.first())
+        .and_then(|k| k["@id"].as_str()).unwrap_or("nope").to_string();
     let last_ann = doc["annotations"].as_array().and_then(|a| a.last()).and_then(|x| x["@id"].as_str()).unwrap_or("nope").to_string();
     match part {
         "ann" => {
@@ -156,6 +162,34 @@ fn mutate_json(doc: &mut Value, part: &str, idx: usize, op: &str, arg: i64) -> b
                 "offset" => {
                     a["target"] = json!({"@type": "TextSelector", "resource": res0,
                         "offset": {"@type": "Offset", "begin": {"@type": "BeginAlignedCursor", "value": big(arg)}, "end": {"@type": "EndAlignedCursor", "value": big(arg)}}})
+                }
+                // end-aligned begin, relative offsets on an annotation, hostile numbers in either cursor
+                "offset_end" => {
+                    a["target"] = json!({"@type": "TextSelector", "resource": res0,
+                        "offset": {"@type": "Offset", "begin": {"@type": "EndAlignedCursor", "value": big(arg)}, "end": {"@type": "EndAlignedCursor", "value": 0}}})
+                }
+                "offset_rel" => {
+                    a["target"] = json!({"@type": "AnnotationSelector", "annotation": first_ann,
+                        "offset": {"@type": "Offset", "begin": {"@type": "BeginAlignedCursor", "value": big(arg)}, "end": {"@type": "BeginAlignedCursor", "value": big(arg)}}})
+                }
+                "offset_rel_end" => {
+                    a["target"] = json!({"@type": "AnnotationSelector", "annotation": first_ann,
+                        "offset": {"@type": "Offset", "begin": {"@type": "BeginAlignedCursor", "value": 0}, "end": {"@type": "EndAlignedCursor", "value": big(arg)}}})
+                }
+                // complex selectors over keys / data / datasets (valid references)
+                "multi_keys" => {
+                    a["target"] = json!({"@type": if arg == 0 { "MultiSelector" } else if arg == 1 { "CompositeSelector" } else { "DirectionalSelector" }, "selectors": [
+                        {"@type": "DataKeySelector", "annotationset": set0, "key": key0}, {"@type": "DataKeySelector", "annotationset": set0, "key": key0}]})
+                }
+                "multi_mixed" => {
+                    a["target"] = json!({"@type": "MultiSelector", "selectors": [
+                        {"@type": "DataSetSelector", "annotationset": set0}, {"@type": "DataKeySelector", "annotationset": set0, "key": key0},
+                        {"@type": "ResourceSelector", "resource": res0}, {"@type": "AnnotationSelector", "annotation": first_ann}]})
+                }
+                // a complete inline data item whose temporary identifier points at a gap / far beyond the data
+                "data_tempid_full" => {
+                    a["data"] = json!([{"@type": "AnnotationData", "@id": format!("!D{}", bigstr(arg)), "set": set0, "key": key0,
+                                        "value": {"@type": "String", "value": "x"}}])
                 }
                 "offset_inverted" => {
                     a["target"] = json!({"@type": "TextSelector", "resource": res0,
@@ -380,6 +414,14 @@ pub fn load_event(ctx: &Ctx, a: &Value) -> (String, Value) {
                 "empty" => Vec::new(),
                 "not_json" => b"{\"@type\": \"AnnotationStore\", ]".to_vec(),
                 "none" => text.clone().into_bytes(),
+                // a second "annotations" member (the streaming reader accepts repeated members) with a temporary identifier
+                "second_annotations" => {
+                    let t = text.trim_end();
+                    let cut = t.rfind('}').unwrap_or(t.len());
+                    let extra = format!(",\n\"annotations\": [{{\"@type\": \"Annotation\", \"@id\": \"!A{}\", \"target\": {{\"@type\": \"ResourceSelector\", \"resource\": \"{}\"}}}}]\n}}",
+                                        bigstr(arg), serde_json::from_str::<Value>(&text).ok().map(|d| first_id(&d, "resources")).unwrap_or_default().replace('\\', "\\\\").replace('"', "\\\""));
+                    format!("{}{}", &t[..cut], extra).into_bytes()
+                }
                 "deep_nesting" => {
                     let mut s = String::new();
                     for _ in 0..100000 {
